@@ -35,17 +35,31 @@ func c06Kinds() []c06Stmt {
 		{"sliceImmArr", one(func(r *plan.Rng, id int) string { return v(id) + " := iarr[0:1]" })},
 		{"sliceStr", one(func(r *plan.Rng, id int) string { return v(id) + " := str[1:3]" })},
 		{"sliceBytes", one(func(r *plan.Rng, id int) string { return v(id) + " := byt[0:1]" })},
-		{"arithInt", one(func(r *plan.Rng, id int) string { return v(id) + " := n " + []string{"+", "-", "*", "/", "%", "&", "|", "^", "<<", ">>", "&^"}[r.Intn(11)] + " 3" })},
-		{"arithFloat", one(func(r *plan.Rng, id int) string { return v(id) + " := fl " + []string{"+", "-", "*", "/"}[r.Intn(4)] + " 2.0" })},
+		{"arithInt", one(func(r *plan.Rng, id int) string {
+			return v(id) + " := n " + []string{"+", "-", "*", "/", "%", "&", "|", "^", "<<", ">>", "&^"}[r.Intn(11)] + " 3"
+		})},
+		{"arithFloat", one(func(r *plan.Rng, id int) string {
+			return v(id) + " := fl " + []string{"+", "-", "*", "/"}[r.Intn(4)] + " 2.0"
+		})},
 		{"arithStr", one(func(r *plan.Rng, id int) string { return v(id) + " := str + \"x\"" })},
 		{"arithChar", one(func(r *plan.Rng, id int) string { return v(id) + " := chr + 1" })},
 		{"arithArr", one(func(r *plan.Rng, id int) string { return v(id) + " := arr + arr" })},
 		{"arithBytes", one(func(r *plan.Rng, id int) string { return v(id) + " := byt + byt" })},
-		{"compare", one(func(r *plan.Rng, id int) string { return v(id) + " := n " + []string{"<", ">", "<=", ">="}[r.Intn(4)] + " 3" })},
-		{"compareFloat", one(func(r *plan.Rng, id int) string { return v(id) + " := fl " + []string{"<", ">", "<=", ">="}[r.Intn(4)] + " 3.5" })},
-		{"compareStr", one(func(r *plan.Rng, id int) string { return v(id) + " := str " + []string{"<", ">", "<=", ">="}[r.Intn(4)] + " \"m\"" })},
-		{"compareChar", one(func(r *plan.Rng, id int) string { return v(id) + " := chr " + []string{"<", ">", "<=", ">="}[r.Intn(4)] + " 'm'" })},
-		{"arithIntFloat", one(func(r *plan.Rng, id int) string { return v(id) + " := n " + []string{"+", "-", "*", "/"}[r.Intn(4)] + " 2.5" })},
+		{"compare", one(func(r *plan.Rng, id int) string {
+			return v(id) + " := n " + []string{"<", ">", "<=", ">="}[r.Intn(4)] + " 3"
+		})},
+		{"compareFloat", one(func(r *plan.Rng, id int) string {
+			return v(id) + " := fl " + []string{"<", ">", "<=", ">="}[r.Intn(4)] + " 3.5"
+		})},
+		{"compareStr", one(func(r *plan.Rng, id int) string {
+			return v(id) + " := str " + []string{"<", ">", "<=", ">="}[r.Intn(4)] + " \"m\""
+		})},
+		{"compareChar", one(func(r *plan.Rng, id int) string {
+			return v(id) + " := chr " + []string{"<", ">", "<=", ">="}[r.Intn(4)] + " 'm'"
+		})},
+		{"arithIntFloat", one(func(r *plan.Rng, id int) string {
+			return v(id) + " := n " + []string{"+", "-", "*", "/"}[r.Intn(4)] + " 2.5"
+		})},
 		{"arithTime", one(func(r *plan.Rng, id int) string { return v(id) + " := time(n) + 5" })},
 		{"unaryMinus", one(func(r *plan.Rng, id int) string { return v(id) + " := -n" })},
 		{"unaryMinusFloat", one(func(r *plan.Rng, id int) string { return v(id) + " := -fl" })},
